@@ -3,6 +3,7 @@ import gens as G
 import pyimpl as P
 from oracle_util import *  # noqa
 from protocol import from_real
+import h2bars_util as U
 
 ID = "C08"
 LEAN_MODULE = ["SCoda.Props.C08", "SCoda.Props.Purity", "SCoda.Props.C16b", "SCoda.Props.Strong589", "SCoda.Props.WrapTie", "SCoda.Props.RelTie2"]
@@ -34,9 +35,12 @@ CLAUSES = [
 ]
 LEVEL = "proof"
 RULE = ("well-formed multi-channel sequences (<=6 notes, 2-3 channels, notes spanning several boundaries, events exactly on "
-        "boundaries and on the final tick, leading/trailing rests) x capacity lists of 0..4 values incl. 1; "
+        "boundaries and on the final tick, leading/trailing rests, zero-length notes anywhere and exactly on boundaries) x capacity lists of 0..4 values "
+        "incl. 1 x wrapper states built from plain data (rel, abs, both, stale views, insort, churned); "
         "non-trivial = some note crosses a boundary or an event sits on a boundary")
-ASSUMPTIONS = ["model: SCoda.split (Model/Split.lean), tied by correspondence"]
+ASSUMPTIONS = ["model: SCoda.split (Model/Split.lean), tied by translation (RelTie2 / WrapTie) and sampled by correspondence",
+               "`pure`: the source is built from plain data and its fresh views are read attribute by attribute before and after the call and compared with "
+               "that data (not through copy())"]
 
 
 def final_boundary_event(rel, caps):
@@ -49,14 +53,21 @@ def final_boundary_event(rel, caps):
     return dur in bounds and any(t == dur and m[TY] != OFF for t, m in timed)
 
 
-def zero_length_on_boundary(rel, caps):
-    """D18: a note whose note-on and note-off share a tick that is a cumulative capacity"""
-    timed, _ = rel_timed(rel)
-    cum, bounds = 0, set()
+def bounds_of(caps):
+    cum, bounds = 0, []
     for c in caps:
         cum += c
-        bounds.add(cum)
-    return any(on == off and on in bounds for (c, p, on, off, v) in notes_of(timed))
+        bounds.append(cum)
+    return bounds
+
+
+def zero_on_boundary(rel, caps):
+    """D18: (channel, pitch, tick, velocity) of the notes whose note-on and note-off share a tick that is a cumulative capacity"""
+    return U.zero_length_keys(rel, at=set(bounds_of(caps)))
+
+
+def zero_length_on_boundary(rel, caps):
+    return bool(zero_on_boundary(rel, caps))
 
 
 def o_split(inp):
@@ -68,23 +79,27 @@ def o_split(inp):
     if wf_violations(timed):
         return [("~skip:ill-formed", "")]
     state = inp.get("state", "rel")
-    if state != "rel" and any(on >= off for (_, _, on, off, _) in notes_of(timed)):
+    if state not in ("rel", "both", "stale-abs") and any(on >= off for (_, _, on, off, _) in notes_of(timed)):
+        # split works on the relative view; where that view has to be derived from the absolute one, a zero-length note is D17's matter
         return [("~skip:zero-length-note-through-the-absolute-view", "")]      # D17's mechanism, not split's
-    s = P.seq_in_state(rel, state)
-    held_before = rel_timed(P.content_of(s))       # what the source holds before the call, read through a copy
-    if state == "rel":
-        before_rel = [from_real(m) for m in s.rel._messages]
+    # the source is built from plain data and read attribute by attribute before and after the call; what it must hold is the plain data
+    # (not what a copy() of it shows — audit round 3, table of part 3)
+    s, supplied = U.build_state(rel, state)
+    before = U.raw_views(s)
+    if U.views_hold(before, rel, supplied) is not None:
+        return [("~skip:state-not-built:" + state, "")]
     try:
         pieces = s.split(list(caps))
     except Exception as e:
         return [("raises", f"{type(e).__name__}: {e}")]
     fails = []
-    if state == "rel":
-        after_rel = [from_real(m) for m in s.rel._messages]
-        if before_rel != after_rel or before_rel != rel:
-            fails.append(("pure", "the source's relative view changed"))
-    elif rel_timed(P.content_of(s)) != held_before:
-        fails.append(("pure", f"the source's content changed (split from wrapper state {state})"))
+    after = U.raw_views(s)
+    for name in ("rel", "abs"):
+        if before[name] is not None and after[name] != before[name]:
+            fails.append(("pure", f"the source's {name} view changed (or went stale); split from wrapper state {state}"))
+    bad = U.views_hold(after, rel, supplied)
+    if bad:
+        fails.append(("pure", f"the source no longer holds what it was given (split from wrapper state {state}): {bad}"))
     prs = [[from_real(m) for m in p.rel._messages] for p in pieces]
     if len(prs) > len(caps) + 1:
         fails.append(("count", f"{len(prs)} pieces for {len(caps)} capacities"))
@@ -92,26 +107,26 @@ def o_split(inp):
     for i, d in enumerate(durs[:-1]):
         if i < len(caps) and d != caps[i]:
             fails.append(("exact", f"piece {i} lasts {d}, capacity {caps[i]}"))
-    if len(prs) > len(caps) and False:
-        pass
     if sum(durs) != dur:
         fails.append(("sum", f"piece durations {durs} sum to {sum(durs)}, original {dur}"))
     laid = []
     off = 0
-    for p, d in zip(prs, durs):
+    for i, (p, d) in enumerate(zip(prs, durs)):
         tp, _ = rel_timed(p)
-        bad = [b for b in wf_violations(tp) if b[0] == "unclosed"]
-        if bad:
-            fails.append(("closed", f"piece ends with sounding note {bad[:2]}"))
+        for b in wf_violations(tp):
+            if b[0] == "unclosed":
+                fails.append(("closed", U.Detail(f"piece {i} ends with {b[1]} still sounding", piece=i, key=tuple(b[1]))))
         laid.extend((t + off, m) for t, m in tp)
         off += d
-    if sounding(laid) != sounding(timed):
-        fails.append(("sound", f"sounding set differs: {sounding(timed)} vs {sounding(laid)}"))
+    a, b_ = sounding(timed), sounding(laid)
+    for key in sorted(set(a) | set(b_)):
+        if a.get(key) != b_.get(key):
+            fails.append(("sound", U.Detail(f"{key} sounds {a.get(key)} in the source, {b_.get(key)} in the pieces", key=key, orig=a.get(key), pieces=b_.get(key))))
     orig_notes = notes_of(timed)
     for (c, p_, on, offt, v) in notes_of(laid):
         src = [n for n in orig_notes if n[0] == c and n[1] == p_ and n[2] <= on and offt <= n[3]]
         if on < offt and not any(n[4] == v for n in src):
-            fails.append(("velocity", f"fragment ({c},{p_},{on},{offt}) velocity {v}, originals {src}"))
+            fails.append(("velocity", U.Detail(f"fragment ({c},{p_},{on},{offt}) velocity {v}, originals {src}", key=(c, p_), on=on, off=offt, vel=v, originals=src)))
     if non_note(laid) != non_note(timed):
         fails.append(("others", f"non-note events differ: {non_note(timed)} vs {non_note(laid)}"))
     return fails
@@ -126,21 +141,23 @@ def setup(ctx):
     ctx.kf_predicates["D8"] = kf_d8
 
     def kf_d18(f):
+        # the DAMAGED (channel, pitch) is the key of a zero-length note on a capacity boundary (audit round 3, K5)
         rel = [tuple(m) for m in f["input"]["rel"]]
         caps = f["input"]["caps"]
-        if not zero_length_on_boundary(rel, caps):
+        d = U.data_of(f)
+        torn = [z for z in zero_on_boundary(rel, caps) if "key" in d and (z[0], z[1]) == tuple(d["key"])]
+        if not torn:
             return False
         if f["clause"] in ("closed", "sound"):
             return True
         if f["clause"] == "velocity":
-            # the never-ending remainder of the torn note shows up as a fragment without an original: same tear
-            import re
-            m = re.search(r"fragment \((\d+),(\d+),(\d+),", f["detail"])
-            if not m or "originals []" not in f["detail"]:
-                return False
-            c, p, on = (int(x) for x in m.groups())
-            timed, _ = rel_timed(rel)
-            return any(cc == c and pp == p and o == on and o == off for (cc, pp, o, off, v) in notes_of(timed))
+            # the never-ending remainder of the torn note shows up as fragments without an original: one from the tear's tick and — the
+            # remainder being re-struck at every later boundary like any sounding note — one from each later boundary, all with the torn
+            # note-on's velocity (audit round 3, K1c)
+            # (a real note of that key starting on such a boundary is struck together with the remainder: the fragment then has an original
+            # but carries the torn note-on's velocity)
+            bounds = set(bounds_of(caps))
+            return any(d["vel"] == z[3] and d["on"] >= z[2] and d["on"] in bounds for z in torn)
         return False
     ctx.kf_predicates["D18"] = kf_d18
 
@@ -152,10 +169,15 @@ D8_EXAMPLE = {"rel": [G.pm(ON, 0, None, note=60, vel=64), G.pm(WAIT, 0, 24), G.p
 D18_EXAMPLE = {"rel": [G.pm(WAIT, 0, 24), G.pm(ON, 0, None, note=60, vel=64), G.pm(OFF, 0, None, note=60), G.pm(WAIT, 0, 1)], "caps": [24]}
 
 
+# D18, second member (audit round 3, K1c): the torn note's never-ending remainder is re-struck at the NEXT boundary too
+D18_EXAMPLE2 = {"rel": [G.pm(WAIT, 0, 1), G.pm(ON, 0, None, note=62, vel=64), G.pm(OFF, 0, None, note=62), G.pm(WAIT, 0, 31)], "caps": [1, 24, 6]}
+
+
 def generate(ctx):
     rng = ctx.rng
     ctx.check("split", D8_EXAMPLE)      # the recorded instance of the known finding
     ctx.check("split", D18_EXAMPLE)
+    ctx.check("split", D18_EXAMPLE2)
     for i in range(ctx.n(400, 15000)):
         grid = rng.choice([1, 6, 12])
         rel, notes = G.gen_wf_rel(rng, channels=rng.choice([(0,), (0, 1), (0, 1, 2)]), grid=grid, max_tick=120,
@@ -164,11 +186,20 @@ def generate(ctx):
             rel = G.unconsolidate(rng, rel)
             ctx.count("rel:unconsolidated")
         caps = [rng.choice([1, 6, 12, 24, 24, 48, 96]) for _ in range(rng.randint(0, 4))]
+        bounds = set(bounds_of(caps))
+        if rng.random() < 0.25:
+            # zero-length notes (note-on directly followed by its note-off): anywhere, or exactly on a boundary (audit K1)
+            chans = tuple(sorted({m[CH] for m in rel if m[TY] == ON})) or (0,)
+            if bounds and rng.random() < 0.5:
+                rel = U.inject_zero_notes(rng, rel, ticks=sorted(bounds), channels=chans)
+            else:
+                rel = U.inject_zero_notes(rng, rel, channels=chans)
         timed, dur = rel_timed(rel)
-        cum, bounds = 0, set()
-        for c in caps:
-            cum += c
-            bounds.add(cum)
+        zl = U.zero_length_keys(rel)
+        if zl:
+            ctx.count("zero-length-note")
+            if any(z[2] in bounds for z in zl):
+                ctx.count("zero-length-note:on-boundary(D18 class)")
         crossing = any(any(n[2] < b < n[2] + n[3] for b in bounds) for n in notes)
         onb = any(t in bounds for t, m in timed)
         ctx.case((rel, caps), crossing or onb)
@@ -181,7 +212,7 @@ def generate(ctx):
         ctx.check("split", {"rel": rel, "caps": caps})
         if i % 3 == 0:
             # the same split through the Sequence wrapper in another freshness state (a stale view holds other content)
-            st = rng.choice(P.SEQ_STATES[1:])
+            st = rng.choice(U.STATES[1:] + ["churned", "insort"])
             ctx.count("state:" + st)
             ctx.check("split", {"rel": rel, "caps": caps, "state": st})
         ctx.corr("split", P.op_split(caps, rel))
